@@ -334,9 +334,68 @@ func (m *model) apply(e vt.Ev) {
 	}
 }
 
+// emptyProbes: RevComp, RevComp, Reverse and Clone on empty values of every kind (C05 at length 0).
+func emptyProbes(w *vt.W) {
+	type rcl interface {
+		RevComp()
+		Reverse()
+		Len() int
+	}
+	mk := map[string]func() (rcl, func() int){
+		"lin": func() (rcl, func() int) {
+			s := linear.NewSeq("e", nil, alpha)
+			s.Strand = 1
+			return s, func() int { return int(s.Strand) }
+		},
+		"qlin": func() (rcl, func() int) {
+			s := linear.NewQSeq("e", nil, alpha, alphabet.Sanger)
+			s.Strand = 1
+			return s, func() int { return int(s.Strand) }
+		},
+		"aln": func() (rcl, func() int) {
+			s, err := alignment.NewSeq("e", nil, nil, alpha, seq.DefaultConsensus)
+			if err != nil {
+				vt.Fatal("empty alignment: %v", err)
+			}
+			s.Strand = 1
+			return s, func() int { return int(s.Strand) }
+		},
+		"qaln": func() (rcl, func() int) {
+			s, err := alignment.NewQSeq("e", nil, nil, alpha, alphabet.Sanger, seq.DefaultQConsensus)
+			if err != nil {
+				vt.Fatal("empty alignment: %v", err)
+			}
+			s.Strand = 1
+			return s, func() int { return int(s.Strand) }
+		},
+	}
+	for _, kind := range []string{"lin", "qlin", "aln", "qaln"} {
+		ev := vt.Ev{"ev": "emptyprobe", "kind": kind, "panic": "", "len": -1, "strands": []int{}}
+		func() {
+			defer func() {
+				if p := recover(); p != nil {
+					ev["panic"] = fmt.Sprint(p)
+				}
+			}()
+			c, strand := mk[kind]()
+			st := []int{}
+			c.RevComp()
+			st = append(st, strand())
+			c.RevComp()
+			st = append(st, strand())
+			c.Reverse()
+			st = append(st, strand())
+			cloneOf(c)
+			ev["strands"], ev["len"] = st, c.Len()
+		}()
+		w.Emit(ev)
+	}
+}
+
 // Histories runs n random edit histories on real containers.
 func Histories(w *vt.W, rng *rand.Rand, n int, small bool) {
 	kinds := []string{"lin", "qlin", "aln", "qaln", "multi", "qmulti"}
+	emptyProbes(w)
 	for id := 0; id < n; id++ {
 		kind := kinds[id%len(kinds)]
 		q := isQ(kind)
@@ -410,7 +469,18 @@ func edit(rng *rand.Rand, m *model, kind string, c interface{}) (vt.Ev, interfac
 		Reverse()
 	}
 	for try := 0; try < 20; try++ {
-		switch rng.Intn(12) {
+		switch rng.Intn(13) {
+		case 12: // RevComp / Reverse of one row through the row view
+			if single {
+				continue
+			}
+			i := rng.Intn(nrows)
+			comp := rng.Intn(2) == 0
+			es := guardErr(func() error { rowMirror(c, i, comp); return nil })
+			if comp {
+				return vt.Ev{"op": "rowrevcomp", "i": i + 1, "err": es}, c
+			}
+			return vt.Ev{"op": "rowreverse", "i": i + 1, "err": es}, c
 		case 0:
 			es := guardErr(func() error { c.(rc).RevComp(); return nil })
 			return vt.Ev{"op": "revcomp", "err": es}, c
